@@ -1,6 +1,6 @@
 //! C01 — emissions reach exactly the recorder in scope, never one whose scope ended (E3).
 use metrics::{Counter, Gauge, Histogram, Key, KeyName, Label, Level, LocalRecorderGuard, Metadata, Recorder, SharedString, Unit};
-use std::sync::atomic::{AtomicBool, Ordering};
+use std::sync::atomic::{AtomicBool, AtomicUsize, Ordering};
 use std::sync::{Arc, Mutex};
 use vcore::driver::{self, CheckDef, Ctx, PartResult, PartSpec};
 use vcore::json;
@@ -638,6 +638,81 @@ fn guard_lifetime_part(ctx: &Ctx, res: &mut PartResult) {
     res.sample(json!({"rejected": probes[0].2, "accepted": probes[1].2}));
 }
 
+/// Emissions made while a thread exits: a thread-local value of the application whose destructor emits (a per-thread
+/// buffer flushed at exit). A thread without a local recorder has the global one in scope for as long as it runs code,
+/// its own thread-local destructors included, whichever of the application's value and the library's per-thread state was
+/// touched first. Runs in its own process (it installs a global recorder); the destructor catches a panic of the
+/// emission, so that a failure is a verdict and not a dead process.
+fn thread_exit_part(res: &mut PartResult) {
+    res.engine = "E3 orders of first use (application thread-local / first emission / first local scope) x emissions from a thread-local destructor at thread exit".into();
+    static EXIT_PANICS: AtomicUsize = AtomicUsize::new(0);
+    struct Flusher(std::cell::Cell<usize>);
+    impl Drop for Flusher {
+        fn drop(&mut self) {
+            let id = self.0.get();
+            let r = std::panic::catch_unwind(|| {
+                metrics::counter!("exit_flush", "thread" => id.to_string()).increment(1);
+            });
+            if r.is_err() {
+                EXIT_PANICS.fetch_add(1, Ordering::SeqCst);
+            }
+        }
+    }
+    thread_local! { static FLUSHER: Flusher = Flusher(std::cell::Cell::new(0)); }
+    let log: Log = Default::default();
+    let global: &'static Dbl = Box::leak(Box::new(Dbl { id: 7, log: log.clone() }));
+    if metrics::set_global_recorder(global).is_err() {
+        res.error = Some("a global recorder was already installed in this part process".into());
+        return;
+    }
+    vseq::quiet_panics();
+    let mut states = vseq::States::new();
+    // order: 0 = application value first, then an emission; 1 = emission first, then the application value;
+    // 2 = application value first, then a local scope (entered and left), then an emission; 3 = local scope first
+    for order in 0..4usize {
+        res.executions += 1;
+        res.transitions += 4;
+        let local_log: Log = Default::default();
+        let ll = local_log.clone();
+        let t = std::thread::spawn(move || {
+            let local: &'static Dbl = Box::leak(Box::new(Dbl { id: 9, log: ll }));
+            let touch = || FLUSHER.with(|f| f.0.set(100 + order));
+            match order {
+                0 => {
+                    touch();
+                    metrics::counter!("alive").increment(1);
+                }
+                1 => {
+                    metrics::counter!("alive").increment(1);
+                    touch();
+                }
+                2 => {
+                    touch();
+                    metrics::with_local_recorder(local, || metrics::counter!("scoped").increment(1));
+                    metrics::counter!("alive").increment(1);
+                }
+                _ => {
+                    metrics::with_local_recorder(local, || metrics::counter!("scoped").increment(1));
+                    touch();
+                    metrics::counter!("alive").increment(1);
+                }
+            }
+        });
+        let joined = t.join();
+        let got: Vec<String> = log.lock().unwrap().drain(..).collect();
+        let exit_seen = got.iter().filter(|l| l.contains("exit_flush") && l.contains(&format!("thread={}", 100 + order))).count();
+        let alive_seen = got.iter().filter(|l| l.contains("register_counter|alive")).count();
+        states.add(&(order, exit_seen, alive_seen));
+        let cfg = json!({"thread_exit_order": order});
+        if joined.is_err() || EXIT_PANICS.swap(0, Ordering::SeqCst) != 0 || exit_seen != 1 || alive_seen != 1 {
+            res.violation("emission-lost-or-duplicated", format!("a thread without a local recorder (order of first use #{}: {}) emits once while alive and once from a thread-local destructor while it exits, with a global recorder installed: the global recorder saw {} + {} of the 1 + 1 emissions{}; its log: {:?}", order, ["application value, emission", "emission, application value", "application value, local scope, emission", "local scope, application value, emission"][order], alive_seen, exit_seen, if joined.is_err() { " (the thread ended with a panic)" } else { "" }, got), cfg);
+        }
+    }
+    res.states = states.len();
+    res.distinct_outcomes = states.len();
+    res.sample(json!({"order": "application thread-local first, then the first emission", "expected": "the emission made by the thread-local's destructor at thread exit reaches the global recorder"}));
+}
+
 fn threads_part(res: &mut PartResult) {
     res.engine = "E3 all pairs of short scope programs on two threads in lock-step".into();
     // a guard restores the slot of whichever thread drops it: only its being !Send keeps a recorder installed locally on
@@ -916,6 +991,7 @@ fn parts(ctx: &Ctx) -> Vec<PartSpec> {
         PartSpec::new("programs-3recorders-no-global", json!({"p": "prog", "global": false, "recs": 3, "steps": if ctx.quick() { 5 } else { 7 }, "nest": 2})).budget(b),
         PartSpec::new("two-threads", json!({"p": "threads"})),
         PartSpec::new("guard-lifetime-probes", json!({"p": "lifetimes"})),
+        PartSpec::new("thread-exit-emissions", json!({"p": "thread_exit"})),
         PartSpec::new("global-installed-mid-history", json!({"p": "install", "steps": if ctx.quick() { 3 } else { 4 }})),
         PartSpec::new("macro-forms", json!({"p": "macros"})),
         // E2: the global cell's own state machine while emissions look it up (real cell.rs under loom)
@@ -931,6 +1007,7 @@ fn run(ctx: &Ctx, spec: &PartSpec) -> PartResult {
         "prog" => programs_part(ctx, &mut res, spec.arg["global"].as_bool().unwrap_or(false), spec.arg["recs"].as_u64().unwrap_or(2) as usize, spec.arg["steps"].as_u64().unwrap_or(6) as usize, spec.arg["nest"].as_u64().unwrap_or(2) as usize),
         "threads" => threads_part(&mut res),
         "lifetimes" => guard_lifetime_part(ctx, &mut res),
+        "thread_exit" => thread_exit_part(&mut res),
         "loom" => vcore::loompart::run_with_budget(spec.arg["loom"].as_str().unwrap_or(""), spec.arg["pb"].as_u64(), ctx.budget_s, &mut res),
         "install" => global_install_part(&mut res, spec.arg["steps"].as_u64().unwrap_or(3) as usize),
         _ => macro_forms(&mut res),
@@ -942,7 +1019,7 @@ fn main() {
     driver::main(CheckDef {
         prop: "C01",
         level: "model_checking",
-        rule: "every well-formed program of at most N steps over {g = set_default_local_recorder(r), drop(g) of any live guard in any order, mem::forget(g), with_local_recorder(r, || ..) entered / left normally / left by a caught panic} with 2-3 recorder doubles, closure nesting <= 2-3, at most 3 guards, run on the real thread-local recorder; after every step a counter!, gauge!, histogram! and describe_counter! probe must each reach exactly the innermost live scope's recorder (else the global, else nobody) exactly once and never a recorder none of whose borrows is alive; once without and once with a global recorder (separate processes); all pairs of <= 3-step programs on two threads in lock-step; a catalogue of every macro arm (15 forms x 3 kinds + 4 describe forms x 3) with independently written expected name/labels/level/target/module path/unit/description; distinct = distinct (signature, step) / program shapes; describe forms with an empty description (with and without a unit) and an empty metric name; compile-time probes against the metrics crate as built for the harness: 5 programs that keep a LocalRecorderGuard for longer than its recorder (assigned to an outer binding, returned, lengthened to 'static, stored, recorder moved away) must be rejected with a lifetime error, 3 controls must compile",
+        rule: "every well-formed program of at most N steps over {g = set_default_local_recorder(r), drop(g) of any live guard in any order, mem::forget(g), with_local_recorder(r, || ..) entered / left normally / left by a caught panic} with 2-3 recorder doubles, closure nesting <= 2-3, at most 3 guards, run on the real thread-local recorder; after every step a counter!, gauge!, histogram! and describe_counter! probe must each reach exactly the innermost live scope's recorder (else the global, else nobody) exactly once and never a recorder none of whose borrows is alive; once without and once with a global recorder (separate processes); all pairs of <= 3-step programs on two threads in lock-step; a catalogue of every macro arm (15 forms x 3 kinds + 4 describe forms x 3) with independently written expected name/labels/level/target/module path/unit/description; distinct = distinct (signature, step) / program shapes; describe forms with an empty description (with and without a unit) and an empty metric name; compile-time probes against the metrics crate as built for the harness: 5 programs that keep a LocalRecorderGuard for longer than its recorder (assigned to an outer binding, returned, lengthened to 'static, stored, recorder moved away) must be rejected with a lifetime error, 3 controls must compile; emissions from a thread-local destructor at thread exit, for 4 orders of first use of the application's thread-local, the first emission and the first local scope, with a global recorder installed: each reaches the global recorder once",
         assumptions: &["recorder doubles are leaked, so a dispatch to a recorder whose borrow ended is observed instead of being undefined behaviour", "a panic leaving a closure drops the guards created inside it (as locals) innermost first; on normal exit such guards are considered moved out"],
         parts,
         run,
